@@ -67,6 +67,11 @@ type Term struct {
 	Lo, Hi *big.Int
 	ID     int
 	nvars  int8 // 0 = ground, 1 = has variables
+	// dyadic grid of a Real-sorted term: when gok, the value is a multiple of 2^-gk and its
+	// magnitude is at most 2^gm. A value on a grid with gk+gm <= 52 is exactly representable in
+	// binary64, so rounding it is the identity.
+	gok    bool
+	gk, gm int
 }
 
 var (
@@ -140,7 +145,14 @@ func Real(r *big.Rat) *Term {
 	if old, ok := table[k]; ok {
 		return old
 	}
-	return mk(&Term{Op: OConst, Sort: SReal, RV: new(big.Rat).Set(r)}, k)
+	t := &Term{Op: OConst, Sort: SReal, RV: new(big.Rat).Set(r)}
+	// dyadic constant?
+	d := r.Denom()
+	if d.Sign() > 0 && new(big.Int).And(d, new(big.Int).Sub(d, bigOne)).Sign() == 0 {
+		t.gok, t.gk = true, d.BitLen()-1
+		t.gm = new(big.Int).Quo(new(big.Int).Abs(r.Num()), d).BitLen()
+	}
+	return mk(t, k)
 }
 
 func RealF(f float64) *Term {
@@ -242,11 +254,14 @@ func Sub(a, b *Term) *Term {
 }
 
 func Neg(a *Term) *Term {
+	if a.Op == ONeg {
+		return a.Args[0]
+	}
 	if a.Sort == SReal {
 		if a.IsConst() {
 			return Real(new(big.Rat).Neg(a.RV))
 		}
-		return mk(&Term{Op: ONeg, Sort: SReal, Args: []*Term{a}}, key(ONeg, a))
+		return mk(&Term{Op: ONeg, Sort: SReal, Args: []*Term{a}, gok: a.gok, gk: a.gk, gm: a.gm}, key(ONeg, a))
 	}
 	if a.IsConst() {
 		return IntBig(new(big.Int).Neg(a.IV))
@@ -502,6 +517,15 @@ func Ite(c, a, b *Term) *Term {
 	if a.Sort == SInt {
 		t.Lo, t.Hi = minB(a.Lo, b.Lo), maxB(a.Hi, b.Hi)
 	}
+	if a.Sort == SReal && a.gok && b.gok {
+		t.gok, t.gk, t.gm = true, a.gk, a.gm
+		if b.gk > t.gk {
+			t.gk = b.gk
+		}
+		if b.gm > t.gm {
+			t.gm = b.gm
+		}
+	}
 	return mk(t, key(OIte, c, a, b))
 }
 
@@ -640,7 +664,12 @@ func ToReal(a *Term) *Term {
 	if a.IsConst() {
 		return Real(new(big.Rat).SetInt(a.IV))
 	}
-	return mk(&Term{Op: OToReal, Sort: SReal, Args: []*Term{a}}, key(OToReal, a))
+	t := &Term{Op: OToReal, Sort: SReal, Args: []*Term{a}}
+	if a.Lo != nil && a.Hi != nil {
+		m := maxB(new(big.Int).Abs(a.Lo), new(big.Int).Abs(a.Hi))
+		t.gok, t.gk, t.gm = true, 0, m.BitLen()
+	}
+	return mk(t, key(OToReal, a))
 }
 
 // ToIntFloor is SMT to_int (floor).
@@ -667,6 +696,36 @@ func radd(a, b *Term) *Term { return rbin(OAdd, a, b) }
 
 func rbin(op Op, a, b *Term) *Term {
 	a, b = coerceR(a), coerceR(b)
+	// (x + x) / 2 = x
+	if op == ODiv && b.IsConst() && b.RV.Cmp(big.NewRat(2, 1)) == 0 && a.Op == OAdd && a.Sort == SReal && a.Args[0] == a.Args[1] {
+		return a.Args[0]
+	}
+	if op == OSub && a == b {
+		return Real(new(big.Rat))
+	}
+	if (op == OMul || op == ODiv) && a.IsConst() && a.RV.Sign() == 0 {
+		return a // 0 * x = 0 / x = 0 (a zero divisor is excluded by the caller's obligation)
+	}
+	if op == OMul && b.IsConst() && b.RV.Sign() == 0 {
+		return b
+	}
+	// canonical orientation of differences and sign normalisation: x - y with a fixed operand
+	// order, signs pulled outwards. (Round-to-nearest is odd: rnd(-t) = -rnd(t).)
+	if op == OSub && !a.IsConst() && !b.IsConst() && a.ID > b.ID {
+		return Neg(rbin(OSub, b, a))
+	}
+	if op == OMul || op == ODiv {
+		na, nb := a.Op == ONeg, b.Op == ONeg
+		if na && nb {
+			return rbin(op, a.Args[0], b.Args[0])
+		}
+		if na {
+			return Neg(rbin(op, a.Args[0], b))
+		}
+		if nb {
+			return Neg(rbin(op, a, b.Args[0]))
+		}
+	}
 	if a.IsConst() && b.IsConst() {
 		r := new(big.Rat)
 		switch op {
@@ -685,7 +744,37 @@ func rbin(op Op, a, b *Term) *Term {
 		return Real(r)
 	}
 generic:
-	return mk(&Term{Op: op, Sort: SReal, Args: []*Term{a, b}}, string(rune('R'))+key(op, a, b))
+	t := &Term{Op: op, Sort: SReal, Args: []*Term{a, b}}
+	if a.gok && b.gok {
+		switch op {
+		case OAdd, OSub:
+			t.gok = true
+			t.gk = a.gk
+			if b.gk > t.gk {
+				t.gk = b.gk
+			}
+			t.gm = a.gm
+			if b.gm > t.gm {
+				t.gm = b.gm
+			}
+			t.gm++
+		case OMul:
+			t.gok, t.gk, t.gm = true, a.gk+b.gk, a.gm+b.gm
+		case ODiv:
+			// division by a power of two only shifts the grid
+			if b.IsConst() && b.RV.Sign() > 0 && b.RV.IsInt() {
+				n := b.RV.Num()
+				if new(big.Int).And(n, new(big.Int).Sub(n, bigOne)).Sign() == 0 {
+					sh := n.BitLen() - 1
+					t.gok, t.gk, t.gm = true, a.gk+sh, a.gm-sh
+					if t.gm < 0 {
+						t.gm = 0
+					}
+				}
+			}
+		}
+	}
+	return mk(t, string(rune('R'))+key(op, a, b))
 }
 
 // RDiv divides reals. A divisor that is an ite-tree over constants (e.g. the
@@ -783,6 +872,9 @@ func Rnd(a *Term) *Term {
 	if a.Op == ORnd {
 		return a
 	}
+	if a.Op == ONeg {
+		return Neg(Rnd(a.Args[0])) // rounding to nearest is an odd function
+	}
 	if a.IsConst() {
 		f, _ := a.RV.Float64() // nearest binary64, ties to even
 		return RealF(f)
@@ -792,6 +884,9 @@ func Rnd(a *Term) *Term {
 		if x.Lo != nil && x.Hi != nil && x.Lo.Cmp(negTwo53) >= 0 && x.Hi.Cmp(two53) <= 0 {
 			return a // integers of magnitude <= 2^53 are exactly representable
 		}
+	}
+	if a.gok && a.gk+a.gm <= 52 && a.gk <= 1000 {
+		return a // on a dyadic grid fine enough to be exactly representable
 	}
 	return mk(&Term{Op: ORnd, Sort: SReal, Args: []*Term{a}}, key(ORnd, a))
 }
